@@ -50,6 +50,9 @@ SHAPES = {
     'ref_id_chain': {'classes': [C('A', 'Id', [('B_Id', 'unique_id')]), C('B', None, [('Id', 'unique_id')]), C('C', 'Id')],
                      'assocs': [A('R8', 0, ['B_Id'], True, True, '', 1, ['Id'], False, True, ''),
                                 A('R9', 1, ['Id'], False, True, '', 2, ['Id'], False, True, '')]},
+    # a NON-reflexive association whose ends carry phrases: relate / unrelate / navigation without the phrase are unknown links
+    'one_many_phrased': {'classes': [C('A', 'Id', [('B_Id', 'unique_id')]), C('B', 'Id')],
+                         'assocs': [A('R1', 0, ['B_Id'], True, True, 'is owned by', 1, ['Id'], False, True, 'owns')]},
     'two_assocs_shared_ref': {'classes': [C('A', 'Id', [('X_Id', 'unique_id')]), C('B', 'Id'), C('D', 'Id')],
                               'assocs': [A('R5', 0, ['X_Id'], True, True, '', 1, ['Id'], False, True, ''),
                                          A('R6', 0, ['X_Id'], False, True, '', 2, ['Id'], True, True, '')]},
